@@ -62,6 +62,8 @@ def model_jobs(tier):
                                               drop=["CONSTRAINT Emit"])),
         ("neg-order", "Collect", subst_cfg("CollectMC_deny.cfg", "nego.cfg", CollectOrder='"denylist-then-configs"',
                                            DenyMax="0", drop=["CONSTRAINT Emit"])),
+        ("neg-shared", "Collect", subst_cfg("CollectMC_deny.cfg", "negs.cfg", ObserverMode='"shared"',
+                                            DenyMax="0", drop=["CONSTRAINT Emit"])),
         ("neg-mangle32", "Collect", subst_cfg("CollectMC_deny.cfg", "negm.cfg", DestMode='"mangle32"', DenyMax="0",
                                               drop=["CONSTRAINT Emit"])),
     ]
@@ -70,7 +72,7 @@ def model_jobs(tier):
 
 EXPECT_NEG = {"neg-textual": "Contained", "neg-joined": "WritesUnderOut", "neg-unstripped": "FactoryWritesUnderOut",
               "neg-mangle32": "FactoryWritesUnderOut", "neg-preserve": "WritesUnderOut",
-              "neg-order": "DenyRespected"}
+              "neg-order": "DenyRespected", "neg-shared": "FactoryWritesUnderOut"}
 
 
 def run_models(tier):
